@@ -115,6 +115,49 @@ func gen(g *vh.Gen) {
 		}
 		g.Emit("asmtls", append(c.Fields(), vh.H(stream))...)
 	}
+	// STARTTLS: a server with TLS configured; the client greets, asks for STARTTLS (sometimes with plaintext commands
+	// pipelined behind it in the same segment - they must never be executed), upgrades with a real handshake when the
+	// server said 220, and goes on under TLS: greeting again (or not), a second STARTTLS, transactions
+	for i := 0; i < g.N(14, 400); i++ {
+		c, pool := smtpd.GenCfg(g, oc)
+		if g.Chance(0.7) {
+			c.DA, c.DS, c.Rej, c.Dis = true, true, "", ""
+		}
+		var p strings.Builder
+		line := func(b *strings.Builder, s string) { b.WriteString(s); b.WriteString(g.Pick2s("\r\n", "\r\n", "\n")) }
+		if g.Chance(0.85) {
+			line(&p, g.Pick("EHLO", "HELO", "ehlo")+" client.example")
+		}
+		if g.Chance(0.15) { // a refused MAIL leaves the sender behind, a transaction moves the state on
+			line(&p, "MAIL FROM:<a@b.org> SIZE=99999999999")
+		}
+		if g.Chance(0.1) {
+			line(&p, "MAIL FROM:<alice@example.org>") // STARTTLS inside a transaction: out of sequence
+		}
+		line(&p, g.Pick("STARTTLS", "STARTTLS", "starttls", "StartTLS", "STARTTLS now"))
+		if g.Chance(0.35) { // plaintext injected behind the STARTTLS line
+			line(&p, g.Pick("MAIL FROM:<evil@example.org>", "NOOP", "RSET", "EHLO injected.example", "QUIT", "STARTTLS"))
+			if g.Chance(0.5) {
+				line(&p, "RCPT TO:<alice@example.org>")
+			}
+		}
+		var t strings.Builder
+		if g.Chance(0.25) {
+			line(&t, g.Pick("MAIL FROM:<alice@example.org>", "NOOP", "RSET", "AUTH PLAIN abc", "STARTTLS")) // before the new greeting
+		}
+		if g.Chance(0.9) {
+			line(&t, g.Pick("EHLO", "HELO")+" again.example")
+		}
+		if g.Chance(0.3) {
+			line(&t, "STARTTLS")
+		}
+		t.Write(smtpd.GenDialogue(g, c, pool, smtpd.Opts{Garbage: 0.05, MaxBody: 40}))
+		ts := t.String()
+		if !strings.HasSuffix(strings.ToUpper(strings.TrimRight(ts, "\r\n")), "QUIT") {
+			ts += "QUIT\r\n"
+		}
+		g.Emit("smtptls", append(c.Fields(), vh.H([]byte(p.String()))+"@"+vh.H([]byte(ts)))...)
+	}
 	// one pause at every byte offset of valid dialogues
 	for i := 0; i < g.N(3, 150); i++ {
 		c, pool := smtpd.GenCfg(g, oc)
@@ -131,7 +174,7 @@ func gen(g *vh.Gen) {
 
 func exec(kind string, in []string) []string {
 	switch kind {
-	case "smtp":
+	case "smtp", "smtptls":
 		return smtpd.Exec(in)
 	case "smtppar":
 		return smtpd.ExecPar(in)
